@@ -27,10 +27,11 @@ class Trampoline:
                 return
         try:
             self._run()
-        finally:
+        except BaseException:
             with self._lock:
                 self._idle = True
                 self._queue.clear()
+            raise
 
     def _run(self) -> None:
         ready: deque[ScheduledItem] = deque()
@@ -51,6 +52,10 @@ class Trampoline:
 
             with self._lock:
                 if len(self._queue) == 0:
+                    # Go idle under the same lock as the emptiness test, so that
+                    # an item enqueued by another thread can never fall between
+                    # the test and the trampoline becoming idle (it would be lost).
+                    self._idle = True
                     break
                 item = self._queue.peek()
                 seconds = (item.duetime - item.scheduler.now).total_seconds()
